@@ -7,7 +7,7 @@ THEOREMS = ["C14_exclusive_hand_over", "C14_token_moves", "C14_workers_touch_onl
 
 
 def run(ck):
-    ck.prove(["Properties_C14", "SrcRun4", "RefineConcSimEx", "Properties_SrcConc"], THEOREMS + ["SRC_protocol_follows_PipeConc"])
+    ck.prove(["Properties_C14", "SrcRun4", "RefineConcSimEx", "Properties_SrcConc", "Properties_SrcConc2"], THEOREMS + ["SRC_protocol_follows_PipeConc", "SRC_protocol_machine_is_followed_by_PipeConc"])
     exe = shim_driver(ck)
     big = ck.tier == "thorough"
     env = small_env(ck)
